@@ -1,0 +1,33 @@
+//go:build verif
+
+package cabf_smime_br
+
+// Machine-checked contracts for the verification machinery in /verif (govc).
+// This file contains comments only and is compiled only with -tags verif.
+
+// ---------------------------------------------------------------------------
+// e_registration_scheme_id_matches_subject_country (C02): Execute indexes the submatches of
+// every subject:organizationIdentifier without a length check; what makes that safe is that
+// CheckApplies has looked at EVERY identifier (not only up to the first interesting one) and
+// that there is a subject country. The loop invariant of CheckApplies carries the first fact
+// to its postcondition, which is Execute's precondition.
+
+//@ spec orgIDsParse(c *x509.Certificate) bool =
+//@      forall(j, 0, len(c.Subject.OrganizationIDs), len(countryRegex.FindStringSubmatch(c.Subject.OrganizationIDs[j])) >= 3)
+
+//@ func (*registrationSchemeIDMatchesSubjectCountry).CheckApplies [C02]
+//@   pure
+//@   requires c != nil
+//@   nopanic
+//@   loop 1 invariant forall(j, 0, k, len(countryRegex.FindStringSubmatch(c.Subject.OrganizationIDs[j])) >= 3)
+//@   ensures implies(result, orgIDsParse(c) && len(c.Subject.Country) >= 1)
+
+//@ func (*registrationSchemeIDMatchesSubjectCountry).Execute [C02]
+//@   requires c != nil && orgIDsParse(c) && len(c.Subject.Country) >= 1
+//@   nopanic
+//@   assigns \fresh
+
+//@ func verifySMIMEOrganizationIdentifierContainsSubjectNameCountry [C02]
+//@   requires len(countryRegex.FindStringSubmatch(id)) >= 3
+//@   nopanic
+//@   assigns \fresh
